@@ -34,20 +34,95 @@ def tables(ns):
         INT_CONSTS[f"u{bits}::MAX"] = (1 << bits) - 1
 
     def int_expr(table, rel, text, consts):
-        t = re.sub(r"\s+", "", text)
-        t = re.sub(r"asi128$", "", t)
-        neg = t.startswith("-")
-        if neg:
-            t = t[1:]
-        if re.fullmatch(r"[0-9][0-9_]*", t):
-            v = int(t.replace("_", ""))
-        elif t in INT_CONSTS:
-            v = INT_CONSTS[t]
-        elif t in consts:
-            v = consts[t]
-        else:
+        """value of a constant integer expression: literals (`1_000`, `0x7f`, `1i128`), `<int type>::MIN` / `::MAX`, named constants
+        (`consts`), `as <int type>` casts (the values written here fit every type they are cast to), parentheses, unary `-`, and the
+        operators `<<`, `>>`, `+`, `-`, `*` with Rust's precedence (`*` over `+ -` over `<< >>`); also `<lit>.pow(n)` / `<ty>::pow(a, n)`.
+        `-2_305_843_009_213_693_952`, `-(1 << 61)` and `-(2i128.pow(61))` are the same number"""
+        toks = re.findall(r"\d\w*|[A-Za-z_]\w*(?:::\w+)*|<<|>>|[-+*(),.]", text)
+        if "".join(toks) != re.sub(r"\s+", "", text):
             raise ExtractionError(table, rel, f"integer expression `{text.strip()}` not understood")
-        return -v if neg else v
+        pos = [0]
+
+        def fail():
+            raise ExtractionError(table, rel, f"integer expression `{text.strip()}` not understood")
+
+        def peek():
+            return toks[pos[0]] if pos[0] < len(toks) else None
+
+        def take(tok=None):
+            t = peek()
+            if t is None or (tok is not None and t != tok):
+                fail()
+            pos[0] += 1
+            return t
+
+        def atom():
+            t = take()
+            if t == "(":
+                v = shift()
+                take(")")
+            elif re.fullmatch(r"\d\w*", t):
+                lit = re.sub(r"_?[iu](?:8|16|32|64|128|size)$", "", t).replace("_", "")
+                try:
+                    v = int(lit, 0) if re.match(r"0[xob]", lit) else int(lit)
+                except ValueError:
+                    fail()
+            elif t in INT_CONSTS:
+                v = INT_CONSTS[t]
+            elif t in consts:
+                v = consts[t]
+            elif re.fullmatch(r"[iu](?:8|16|32|64|128|size)::pow", t):
+                take("(")
+                a = shift()
+                take(",")
+                b = shift()
+                take(")")
+                v = a ** b if 0 <= b <= 128 else fail()
+            else:
+                fail()
+            while peek() in (".", "as"):               # postfix: `.pow(n)`, `as i128`
+                if take() == ".":
+                    take("pow")
+                    take("(")
+                    b = shift()
+                    take(")")
+                    v = v ** b if 0 <= b <= 128 else fail()
+                elif not re.fullmatch(r"[iu](?:8|16|32|64|128|size)", take()):
+                    fail()
+            return v
+
+        def unary():
+            if peek() == "-":
+                take()
+                return -unary()
+            return atom()
+
+        def product():
+            v = unary()
+            while peek() == "*":
+                take()
+                v *= unary()
+            return v
+
+        def summ():
+            v = product()
+            while peek() in ("+", "-"):
+                v = v + product() if take() == "+" else v - product()
+            return v
+
+        def shift():
+            v = summ()
+            while peek() in ("<<", ">>"):
+                op, n = take(), summ()
+                if not 0 <= n <= 128:
+                    fail()
+                v = v << n if op == "<<" else v >> n
+            return v
+
+        v = shift()
+        if pos[0] != len(toks):
+            fail()
+        return v
 
     def gen_primitives(repo):
         T = "Primitives"
@@ -227,10 +302,9 @@ end Slicec.Gen
         asrc = read(repo, rel4, T)
         # canonical form (rustcanon.py): the loop variable and the validity flag are `$n`, whatever the function calls them
         body = rustcanon.canon(parse_from_body(asrc, T, rel4, r"Allow"), fn_params(asrc, "parse_from", T, rel4, r"Allow"))
-        vm = re.search(r"let mut (\$\d+)=Lint::ALLOWABLE_LINT_IDENTIFIERS\.contains\(&(\$\d+)\.as_str\(\)\);", body)
-        if not vm:
+        if "Lint::ALLOWABLE_LINT_IDENTIFIERS.contains(" not in body:
             raise ExtractionError(T, rel4, "Allow::parse_from does not test ALLOWABLE_LINT_IDENTIFIERS.contains")
-        excluded = re.findall(r"if " + re.escape(vm.group(2)) + r"==\"(\w+)\"\{" + re.escape(vm.group(1)) + r"=false", body)
+        _arg, excluded = ns["allow_argument_validity"](body, T, rel4)
         text = f"""-- GENERATED by translator/tables_c04.py from {rel}, {rel2}, {rel3}, {rel4} — do not edit.
 namespace Slicec.Gen
 
